@@ -22,6 +22,40 @@ def parseScript (s : String) : Option (List Step) :=
 def render (toks : List (View × Bytes)) (done : Bool) (errs : Nat) (arrays : List Bytes) : String :=
   s!"ok errs={errs} done={if done then 1 else 0} t={hexList (toks.map (·.2))} r={hexList (toks.map fun t => readView arrays t.1)}"
 
+/-! run-length coded byte strings (`big` op): `n*hh` items joined by `,`, `-` = empty; lists joined by `;`, `.` = empty list.
+    Both sides print maximal runs, so the text is canonical. -/
+
+def parseRleItem (s : String) : Option Bytes :=
+  match s.splitOn "*" with
+  | [n, h] => do
+    let k ← n.toNat?
+    match Hex.dec h with
+    | some [b] => some (List.replicate k b)
+    | _ => none
+  | _ => none
+
+def parseRle (s : String) : Option Bytes :=
+  if s = "-" then some [] else ((s.splitOn ",").mapM parseRleItem).map List.flatten
+
+def rleItem (b : UInt8) (n : Nat) : String := s!"{n}*{Hex.enc [b]}"
+
+/-- tail recursive: `acc` holds the finished runs (reversed), `cur` the open run -/
+def rleGo : Bytes → UInt8 → Nat → List String → List String
+  | [], b, n, acc => (rleItem b n :: acc).reverse
+  | x :: r, b, n, acc => if x = b then rleGo r b (n + 1) acc else rleGo r x 1 (rleItem b n :: acc)
+
+def rle : Bytes → String
+  | [] => "-"
+  | b :: r => ",".intercalate (rleGo r b 1 [])
+
+def rleList (l : List Bytes) : String := if l.isEmpty then "." else ";".intercalate (l.map rle)
+
+def renderBig (toks : List (View × Bytes)) (done : Bool) (errs : Nat) (arrays : List Bytes) : String :=
+  s!"ok errs={errs} done={if done then 1 else 0} t={rleList (toks.map (·.2))} r={rleList (toks.map fun t => readView arrays t.1)}"
+
+def renderNoCb (toks : List (View × Bytes)) (done : Bool) (arrays : List Bytes) : String :=
+  s!"ok done={if done then 1 else 0} t={hexList (toks.map (·.2))} r={hexList (toks.map fun t => readView arrays t.1)}"
+
 /-- `imm <bufSize> <hex data> <script>` / `buf <maxBufLen> <hex data> <script>` -/
 def handle : List String → String
   | ["imm", bs, d, sc] =>
@@ -70,6 +104,38 @@ def handle : List String → String
       let bs := o.batches.map fun b => s!"{b.start}:src:{hexList (b.lines.map fun l => readView arrays l.1)}"
       let atSend := o.batches.map fun b => s!"{b.start}:src:{hexList (b.lines.map (·.2))}"
       s!"ok errs={o.final.errs} stable={if bs = atSend then 1 else 0} b={if bs.isEmpty then "." else "|".intercalate bs}"
+    | _, _, _ => "bad-args"
+  | ["big", kind, bs, d, sc] =>
+    -- the same scanners over run-length coded data: real sizes (the batcher's 128 KiB buffer, lines longer than it)
+    match bs.toNat?, parseRle d, parseScript sc with
+    | some n, some data, some script =>
+      let fuel := data.length + script.length + 3
+      if kind = "imm" then
+        let r := Imm.scanAll fuel fuel (Imm.init n ⟨data, script⟩)
+        renderBig r.1 r.2.1 r.2.2.errs r.2.2.arrays
+      else if kind = "buf" then
+        if n ≤ 1 then "panic" else
+        let r := Buf.scanAll fuel fuel (Buf.init n ⟨data, script⟩)
+        renderBig r.1 r.2.1 r.2.2.errs r.2.2.arrays
+      else if kind = "sync" then
+        let o := syncRun n data script
+        let arrays := o.final.arrays
+        let bs := o.batches.map fun b => s!"{b.start}:{rleList (b.lines.map fun l => readView arrays l.1)}"
+        let atSend := o.batches.map fun b => s!"{b.start}:{rleList (b.lines.map (·.2))}"
+        s!"ok errs={o.final.errs} stable={if bs = atSend then 1 else 0} b={if bs.isEmpty then "." else "|".intercalate bs}"
+      else "bad-args"
+    | _, _, _ => "bad-args"
+  | ["nocb", kind, bs, d, sc] =>
+    -- no OnError callback installed (`s.onError != nil` guards the call): same lines, nothing to count
+    match bs.toNat?, Hex.dec d, parseScript sc with
+    | some n, some data, some script =>
+      let fuel := data.length + script.length + 3
+      if kind = "imm" then
+        let r := Imm.scanAll fuel fuel (Imm.init n ⟨data, script⟩)
+        renderNoCb r.1 r.2.1 r.2.2.arrays
+      else if n ≤ 1 then "panic" else
+        let r := Buf.scanAll fuel fuel (Buf.init n ⟨data, script⟩)
+        renderNoCb r.1 r.2.1 r.2.2.arrays
     | _, _, _ => "bad-args"
   | ["split", d] =>
     match Hex.dec d with
